@@ -59,7 +59,7 @@ class HarnessError(Exception):
 
 class ThreadState:
     __slots__ = ('name', 'go', 'token', 'finished', 'started', 'time_calls', 'blocks', 'waiting_on',
-                 'kill', 'exc', 'tb', 'waits', 'is_job', 'max_time_calls', 'thread', 'blocked_in_put')
+                 'kill', 'exc', 'tb', 'waits', 'is_job', 'max_time_calls', 'thread', 'blocked_in_put', 'sleep_hook', 'hold_acc')
 
     def __init__(self, name):
         self.name = name
@@ -78,6 +78,8 @@ class ThreadState:
         self.is_job = False
         self.thread = None
         self.blocked_in_put = False
+        self.sleep_hook = None
+        self.hold_acc = 0.0          # virtual time this thread spent parked by the harness (HOLD) since it last went to sleep by itself
 
 
 class Sim:
@@ -188,6 +190,8 @@ class Sim:
             raise HarnessError('block_current from uncontrolled thread %r' % (me,))
         st.waiting_on = waitobj
         tok = st.token
+        if waitobj is HOLD and until is not None:
+            st.hold_acc += max(0.0, until - self.now)
         if until is not None:
             j = self.jrng.uniform(5e-6, 150e-6) if jitter else 0.0
             self.at(until + j, self._resume, st, tok)
@@ -393,6 +397,9 @@ class VQueue:
         self.n_get_block += 1
         if len(st.waits) < 4096:
             st.waits.append((sim.now, timeout))
+        if st.sleep_hook is not None:
+            st.sleep_hook(sim.now, timeout, st.hold_acc)           # monitor: the thread is going to sleep on an empty queue for `timeout`
+        st.hold_acc = 0.0
         until = None if timeout is None else sim.now + timeout
         self.waiters.append(st)
         try:
